@@ -27,11 +27,15 @@ func init() {
 		if s, ok := c19HistRun(f); ok { // c19hist.go: one stage, many evaluations (pool state), docs examples
 			return s, true
 		}
+		if s, ok := c19LookRun(f); ok { // c19look.go: the look-ups Eval makes, in order
+			return s, true
+		}
 		return c19GramRun(f)
 	}
 	c19ExtraGen = func(r *Rand, tier string) []string {
 		out := append(c19GramGen(r, tier), c19F64Gen(r, tier)...) // c19f64.go: the IEEE instance
 		out = append(out, c19HistGen(r, tier)...)   // c19hist.go
+		out = append(out, c19LookGen(r, tier)...)   // c19look.go
 		return append(out, c19EmptyGen(r, tier)...) // c19empty.go: empty / blank-only groups at every position
 	}
 }
